@@ -54,6 +54,12 @@ CHECKS = {
   text='ideal_2sum, fast_2sum, classic_2sum, priest_2sum, ideal_2mul, fast_2mul, classic_2mul, ideal_fma, classic_2fma are called on every operand pair (sampled pairs in quick, sampled triples for fma) of float contexts with subnormals (p = 2..4 quick / 2..7 thorough, all 8 modes where the algorithm allows): the exact sum of the returned terms must equal the exact a+b / a*b / a*b+c and the leading term must be the context\'s rounding of it. ldexp is compared with the exact product rounded once (operands wider than the context included); split / modf / frexp are recombined exactly for every finite, zero, infinite and NaN operand of a window of encodings and every digit position.',
   ref='DESIGN.md 2/C20',
   note='Trusted: Fraction arithmetic; vf/oracle/rnd.py. Preconditions (counted as "pre_false" when they fail): RN mode for fast_2sum/classic_2sum/classic_2mul/classic_2fma; |a|>=|b| for fast_2sum; rounded result finite; exact error term representable; Veltkamp/Dekker need 2 <= s <= p-2 i.e. p >= 4 and no overflow of (2^s+1)*x; Boldo-Muller needs p >= 5; partial products not below the subnormal quantum.'),
+ 'C07': dict(
+  technique='differential runtime monitor at Function.__call__: generated source programs run before and after simplify / ConstFold / CopyPropagate / DeadCodeEliminate on the same inputs',
+  category='exploration',
+  text='Thousands of generated programs (copies whose source is redefined afterwards, loop targets shadowing outer variables, constants folded under nested/sequential/run-time-only contexts and rounding modes, dead stores with impure right-hand sides, list mutation through aliases and through callees, helper calls with and without their own context, early returns, statically-true branches) are decorated by the real @fp.fpy and run on 6 inputs each under several caller contexts; then simplify (all switches on plus 4 sampled switch combinations), each pass alone, and a random order of the three passes are applied and the transformed program is run on the same deep-copied inputs. Any difference in the structural result (sign of zero, NaN, infinities, bools, lists, tuples) or an exception of the transformed program or of the transformation itself is a violation; a hanging transformation is counted (watchdog) and makes the run inconclusive only through the early-stop counters.',
+  ref='DESIGN.md 1.5, 2/C07',
+  note='Trusted: the original program\'s own result (the interpreter is checked separately by C04/C01/C02). Inputs on which the original raises are skipped and counted. The run is inconclusive if fewer than 30% of the transformed variants differ textually from the original.'),
 }
 
 NOT_YET = {}
